@@ -54,6 +54,15 @@ func intClass(v int64, bits int) string {
 		return "max"
 	case v > 1<<53:
 		return ">2^53"
+	case bits == 32 && v >= 1<<24:
+		return ">=2^24"
+	case bits == 32 && v >= 1<<16:
+		return ">=2^16"
+	case bits == 32 && v >= 1000:
+		if v%1000 == 0 {
+			return ">=1000,whole-s"
+		}
+		return ">=1000"
 	case v >= 128:
 		return ">=128"
 	}
@@ -184,6 +193,13 @@ func c12Gen(r *vc.Rand, tier string) []c12Case {
 					for _, v := range c12I32 {
 						out = append(out, build(t, map[string]interface{}{f.Name: v}, rc, msg))
 					}
+					// durations across the millisecond range: a dense sweep of small values and seeded values of every magnitude
+					for v := int64(1001); v <= 1300; v++ {
+						out = append(out, build(t, map[string]interface{}{f.Name: v}, rc, msg))
+					}
+					for i := 0; i < 400; i++ {
+						out = append(out, build(t, map[string]interface{}{f.Name: int64(r.U64() % (1 << uint(1+r.Intn(31))))}, rc, msg))
+					}
 				case wire.I64:
 					for _, v := range c12I64 {
 						out = append(out, build(t, map[string]interface{}{f.Name: v}, rc, msg))
@@ -228,7 +244,11 @@ func c12Gen(r *vc.Rand, tier string) []c12Case {
 				case wire.U8:
 					ov[f.Name] = int64(r.Intn(256))
 				case wire.I32:
-					ov[f.Name] = c12I32[r.Intn(len(c12I32))]
+					if r.Bool() {
+						ov[f.Name] = c12I32[r.Intn(len(c12I32))]
+					} else {
+						ov[f.Name] = int64(r.U64() % (1 << uint(1+r.Intn(31))))
+					}
 				case wire.I64:
 					if r.Bool() {
 						ov[f.Name] = c12I64[r.Intn(len(c12I64))]
